@@ -595,7 +595,6 @@ harnesses! {
     c06_dir_byte_lit { prop: C06, feat: "c06", tier: quick, mode: leaf, unwind: 4, caps: "drop=1" } => |s| dirsem::dir_byte(s, 0);
     c06_dir_byte_sym { prop: C06, feat: "c06", tier: quick, mode: leaf, unwind: 4, caps: "drop=1" } => |s| dirsem::dir_byte(s, 1);
     c05_bin_unbound { prop: C05, feat: "c05", tier: quick, mode: full, unwind: 3, caps: "run=2,clone=1,drop=2" } => |s| c05::ev_bin_unbound(s);
-    // ---- segment skeletons: bookkeeping of build_pass_1 / build_pass_2 on segments without items
-    c02_skeleton_pass1 { prop: C02, feat: "c02", tier: quick, mode: leaf, unwind: 12, caps: "drop=1,loop:avra_lib::builder::pass1::pass_1_internal.0=1,loop:avra_lib::builder::pass2::pass_2_internal.0=1" } => |s| step::skeleton_pass1(s);
-    c02_skeleton_pass2 { prop: C02, feat: "c02", tier: quick, mode: leaf, unwind: 12, caps: "drop=1,loop:avra_lib::builder::pass1::pass_1_internal.0=1,loop:avra_lib::builder::pass2::pass_2_internal.0=1" } => |s| step::skeleton_pass2(s);
+    // (segment skeletons of step.rs - build_pass_1/2 on segments without items - are not registered either:
+    //  the lengths of vectors of structs are not folded, so the item loop body is still explored on garbage)
 }
